@@ -485,13 +485,6 @@ func runC17(c c17Case, tr *vw.Trace) *vw.Violation {
 				if up && !pending && cur != nil && !cur.dead {
 					return vw.Violationf("peer-table-differs", "%s: the connection is up and nothing is pending, but the peer's table is %v, last requested set %v", label, got, want)
 				}
-				if !up {
-					if e := envLog.portTrouble(); e != "" {
-						// the session cannot even dial: the machine is out of local ports (connections of earlier cases
-						// linger in TIME_WAIT, other checks run beside this one). Says nothing about the session.
-						panic("verif-inconclusive: the session's dial fails for lack of local ports: " + e)
-					}
-				}
 				if grace {
 					return vw.Violationf("not-converged-liveness-by-timeout", "%s: after 30 s the peer's table is %v, last requested set %v (connection up=%v pending=%v; the session's last connect errors: %v)", label, got, want, up, pending, envLog.recent())
 				}
